@@ -8,3 +8,9 @@ impl StorageMap {
         }
     }
 }
+#[cfg(kani)]
+impl StorageMap {
+    pub(crate) fn verif_is_empty(&self) -> bool {
+        self.locals.is_empty() && self.order.is_empty()
+    }
+}
